@@ -570,7 +570,8 @@ pub fn run(prop: &str) {
         ctx.group(&sdl, cases);
     }
 
-    let mut rng = Rng::new(args.seed ^ if prop == "C03" { 0x03 } else { 0x04 });
+    // hash (property, seed): adjacent SplitMix seeds would give the same stream shifted by one draw
+    let mut rng = Rng::new(nvh::report::fnv(&format!("{prop}:{}", args.seed)));
     let search = args.extra.get("search").map_or(false, |s| s == "1");
     let n_schemas = args.budget(60, 600) * if search { 2 } else { 1 };
     let docs_per_schema = 6;
